@@ -7,6 +7,7 @@ CONSTANTS
   LongSizes = {40, 300}
   LongRuns <- RunsQuick
   FullQueries = 13
+  PauseSizes = {300}
   DevSets <- OnlyFixed
   Seed = 1
   AllKinds = FALSE
